@@ -1116,29 +1116,43 @@ std::ostream& expression_t::print(std::ostream& os, bool old) const
     int nb;
 
     switch (data->kind) {
+    // SMC queries: the builder stores the operands as (runs, bound type, bound, predicate, ...), see
+    // ExpressionBuilder::expr_proba_qualitative / expr_proba_quantitative / expr_proba_expected
     case PROBA_MIN_BOX: flag = true; [[fallthrough]];
     case PROBA_MIN_DIAMOND:
         os << "Pr[";
-        print_bound_type(os, get(0));
-        get(1).print(os, old);
+        print_bound_type(os, get(1));
+        get(2).print(os, old);
+        if (get(0).get_value() >= 0)
+            get(0).print(os << "; ", old);
         os << (flag ? "]([] " : "](<> ");
-        get(2).print(os, old) << ") >= " << get(3).get_double_value();
+        get(3).print(os, old) << ") >= " << get(4).get_double_value();
         break;
 
     case PROBA_BOX: flag = true; [[fallthrough]];
     case PROBA_DIAMOND:
         os << "Pr[";
-        print_bound_type(os, get(0));
-        get(1).print(os, old) << (flag ? "]([] " : "](<> ");
-        get(2).print(os, old) << ")";
+        print_bound_type(os, get(1));
+        get(2).print(os, old);
+        if (get(0).get_value() >= 0)
+            get(0).print(os << "; ", old);
+        if (get(4).is_true()) {
+            os << (flag ? "]([] " : "](<> ");
+            get(3).print(os, old) << ")";
+        } else {
+            get(3).print(os << "](", old) << " U ";
+            get(4).print(os, old) << ")";
+        }
         break;
 
     case PROBA_EXP:
         os << "E[";
-        print_bound_type(os, get(0));
-        get(1).print(os, old) << "; ";
-        get(2).print(os, old) << "] (" << (get(4).get_value() ? "max: " : "min: ");
-        get(3).print(os, old) << ")";
+        print_bound_type(os, get(1));
+        get(2).print(os, old);
+        if (get(0).get_value() >= 0)
+            get(0).print(os << "; ", old);
+        os << "] (" << (get(3).get_value() ? "max: " : "min: ");
+        get(4).print(os, old) << ")";
         break;
 
     case PROBA_CMP:
